@@ -144,7 +144,7 @@ func VerifC04TargetError() {
 		_, okB := h.get("b")
 		all = all && okA && okB
 	}
-	verifObserve("all", verifB2I(all))
+	// (with two workers the order in which requests reach the target is a race: not observed for the differential)
 	verifCover(reject && !all, "target-error.rejected-command")
 	verifAssert(verifImplies(cp, all), "C04.target-error.checkpoint-after-incomplete-replay")
 	verifAssert(verifImplies(!all, err != nil), "C04.target-error.incomplete-reported-as-success")
